@@ -327,6 +327,27 @@ example : -- the receiving session already holds a NEWER value of `v`: it wins o
     (unpickle [{ pk := 1, status := .loaded, vals := [("v", 9)] }] { pk := 1, d := [("v", 1), ("s", 5)] }).2.vals = [("v", 9), ("s", 5)]
     ∧ (reduce { pk := 1, status := .modified, vals := [] }).toOption = none := by decide
 
+/-! ### pickling a query result -/
+
+open PonyVerif.Model.Pickle in
+/-- For every query result flavour the API hands out (eager slice, lazy `page(n)` / `limit(k, offset=m)`, materialised or not)
+    and every limit / offset: the pickle carries exactly the rows of the result's own window of the ordered result — the same
+    rows whether or not something materialised the result before it was pickled. -/
+theorem C31_result_pickle_rows {α : Type} (full : List α) (r : QResult α) (h : r.wellFormed full) :
+    getstateRows full r = fetchWindow r.limit r.offset full := by
+  unfold getstateRows
+  rcases h with h | h <;> simp [h]
+
+open PonyVerif.Model.Pickle in
+example : getstateRows [1, 2, 3, 4, 5, 6] ({ limit := some 2, offset := some 2, items := none } : QResult Nat) = [3, 4]
+    ∧ fetchWindow (some 2) none [1, 2, 3, 4, 5, 6] = [1, 2] := by decide
+
+/-- the fetch in `QueryResult._get_items` passes BOTH the limit and the offset, and `__getstate__` pickles `_get_items()` -/
+theorem C31_source_result_getstate :
+    PonyVerif.Gen.ReducePk.resultFetchCall = "self._query._actual_fetch(self._limit, self._offset)"
+    ∧ PonyVerif.Gen.ReducePk.resultGetstate = "return (self._get_items(), self._limit, self._offset, self._expr_type, self._col_names)"
+    ∧ PonyVerif.Gen.ReducePk.queryReduce = "return (unpickle_query, (query._fetch(),))" := by decide
+
 /-! ### the value a cell reports determines the current value of the attribute -/
 
 /-- well-formed current value: raw keys are non-empty (every entity has a primary key) -/
